@@ -662,6 +662,7 @@ class RTCSctpTransport(AsyncIOEventEmitter):
         self._fast_recovery_exit = None
         self._fast_recovery_transmit = False
         self._forward_tsn_chunk: Optional[ForwardTsnChunk] = None
+        self._forward_tsn_streams: Optional[dict[int, int]] = None
         self._flight_size = 0
         self._local_tsn = random32()
         self._last_sacked_tsn = tsn_minus_one(self._local_tsn)
@@ -1635,23 +1636,25 @@ class RTCSctpTransport(AsyncIOEventEmitter):
         """
         Try to advance "Advanced.Peer.Ack.Point" according to RFC 3758.
         """
-        if uint32_gt(self._last_sacked_tsn, self._advanced_peer_ack_tsn):
+        if uint32_gte(self._last_sacked_tsn, self._advanced_peer_ack_tsn):
+            # the peer has caught up with everything we abandoned
             self._advanced_peer_ack_tsn = self._last_sacked_tsn
+            self._forward_tsn_streams = None
 
-        done = 0
-        streams = {}
         while self._sent_queue and self._sent_queue[0]._abandoned:
             chunk = self._sent_queue.popleft()
             self._advanced_peer_ack_tsn = chunk.tsn
-            done += 1
+            if self._forward_tsn_streams is None:
+                self._forward_tsn_streams = {}
             if not (chunk.flags & SCTP_DATA_UNORDERED):
-                streams[chunk.stream_id] = chunk.stream_seq
+                self._forward_tsn_streams[chunk.stream_id] = chunk.stream_seq
 
-        if done:
-            # build FORWARD TSN
+        if self._forward_tsn_streams is not None:
+            # build FORWARD TSN, it is sent (again) until the peer's cumulative
+            # TSN has reached the advanced peer ack point
             self._forward_tsn_chunk = ForwardTsnChunk()
             self._forward_tsn_chunk.cumulative_tsn = self._advanced_peer_ack_tsn
-            self._forward_tsn_chunk.streams = list(streams.items())
+            self._forward_tsn_chunk.streams = list(self._forward_tsn_streams.items())
 
     def _update_rto(self, R: float) -> None:
         """
